@@ -8,6 +8,7 @@
    pool layer, Pool.v).  Branch targets have type T: instruction indices (nat) in bodies handed to
    the encoder, bytecode offsets (N) in what the reader produces before [sem]. *)
 From FB Require Export C01.Bytes C01.Opcodes.
+From FB Require Import Base.Sort.
 
 (* OpC: a constant-pool index together with the accessor it is resolved with (numbering of Opcodes.v) *)
 Inductive operand (T : Type) := OpN (n : N) | OpZ (z : Z) | OpT (t : T) | OpC (kind idx : N).
@@ -58,7 +59,11 @@ Definition pad_of (pos : N) : N := 3 - pos mod 4.
    builds the instruction's constructor, directly or behind the wide prefix) and the value of the
    bytes the reader ignores (invokeinterface count, invokedynamic zeros, switch padding). *)
 Inductive form := FPlain (op : N) | FWide (op : N).
-Record choice := { c_form : form; c_fill : N }.
+(* [c_fill]: the values of the bytes the reader ignores, in the order they stand in the instruction
+   (invokeinterface count and zero, the two zeros of invokedynamic, up to three bytes of switch
+   padding); missing ones are 0 *)
+Record choice := { c_form : form; c_fill : list N }.
+Definition pad_bytes (fill : list N) (n : nat) : bytes := firstn n (fill ++ repeat 0 n).
 
 Definition p2_len (e : p2) : N :=
   match e with P2 _ rs => reads_len rs | _ => 0 end.
@@ -97,10 +102,10 @@ Definition enc_op (posf : nat -> N) (pos : N) (r : rdk) (o : operand nat) : opti
   | _, _ => None
   end.
 
-Fixpoint enc_ops (posf : nat -> N) (pos fill : N) (rs : list rdk) (ops : list (operand nat)) : option bytes :=
+Fixpoint enc_ops (posf : nat -> N) (pos : N) (fill : list N) (rs : list rdk) (ops : list (operand nat)) : option bytes :=
   match rs with
   | [] => match ops with [] => Some [] | _ => None end
-  | RSkip8 :: rs' => match enc_ops posf pos fill rs' ops with Some b => Some (fill :: b) | None => None end
+  | RSkip8 :: rs' => match enc_ops posf pos (tl fill) rs' ops with Some b => Some (hd 0 fill :: b) | None => None end
   | r :: rs' =>
     match ops with
     | o :: ops' =>
@@ -141,12 +146,12 @@ Definition enc1 (posf : nat -> N) (pos : N) (c : choice) (i : ainsn nat) : optio
   | TSw d lo hi tbl =>
     if (lo <=? hi)%Z && (Z.of_nat (length tbl) =? hi - lo + 1)%Z && fits32 lo && fits32 hi
        && all_fit32 (map (rel_off posf pos) (d :: tbl))
-    then Some (op_TABLESWITCH :: repeat fill (N.to_nat (pad_of pos)) ++ bei32 (rel_off posf pos d) ++ bei32 lo ++ bei32 hi
+    then Some (op_TABLESWITCH :: pad_bytes fill (N.to_nat (pad_of pos)) ++ bei32 (rel_off posf pos d) ++ bei32 lo ++ bei32 hi
                ++ flat_map (fun t => bei32 (rel_off posf pos t)) tbl)
     else None
   | LSw d ps =>
     if fits32 (Z.of_nat (length ps)) && all_fit32 (map fst ps) && all_fit32 (map (rel_off posf pos) (d :: map snd ps))
-    then Some (op_LOOKUPSWITCH :: repeat fill (N.to_nat (pad_of pos)) ++ bei32 (rel_off posf pos d) ++ bei32 (Z.of_nat (length ps))
+    then Some (op_LOOKUPSWITCH :: pad_bytes fill (N.to_nat (pad_of pos)) ++ bei32 (rel_off posf pos d) ++ bei32 (Z.of_nat (length ps))
                ++ flat_map (fun p => bei32 (fst p) ++ bei32 (rel_off posf pos (snd p))) ps)
     else None
   end.
@@ -382,6 +387,7 @@ Record code_in := {
   ci_lines : list (N * N);            (* start_pc, line *)
   ci_ranges : list (N * N);           (* start_pc, length of LocalVariable(Type)Table and localvar type-annotation targets *)
   ci_frames : list N;                 (* offset_delta of each StackMapTable frame, in order *)
+  ci_cldc : option (list N);          (* the CLDC StackMap attribute, if there is one: the offset of each entry, in file order *)
   ci_points : list N                  (* other offsets resolved with get_or_create: Uninitialized verification
                                          types, offset targets of type annotations *)
 }.
@@ -413,7 +419,13 @@ Definition read_code_raw (ci : code_in) : res code_raw :=
   do ls0 <- scan (S (length code)) clen 0 code [];
   do ls1 <- fold_res (fun ls e => match e with (s, e', h) =>
               do a <- lbl_create clen ls s; do b <- lbl_create_excl clen a e'; lbl_create clen b h end) ls0 (ci_exc ci);
-  do fr <- frame_offsets true 0 (ci_frames ci);
+  (* StackMapTable: offsets from the deltas.  StackMap (CLDC): absolute offsets in any order; the
+     frames are queued in the order of their offsets (`sort_by_key(offset)`, stable).  Both fill the
+     same slot (`insert_if_empty`). *)
+  do fr <- match ci_cldc ci with
+           | None => frame_offsets true 0 (ci_frames ci)
+           | Some os => match ci_frames ci with [] => Ok (isort N.leb os) | _ :: _ => Err end
+           end;
   (* attributes are read in file order; the label SET does not depend on that order *)
   do ls2 <- fold_res (lbl_create clen) ls1 fr;
   do ls3 <- fold_res (fun ls e => lbl_create clen ls (fst e)) ls2 (ci_lines ci);
